@@ -23,7 +23,8 @@ ID = "C11"
 LEVEL = "exploration"
 BUDGET = {"quick": 60, "thorough": 600}
 RULE = (
-    "case = (container spec nested <= 3 with duplicate keys and list values, copy "
+    "case = (container spec nested <= 3 with duplicate keys and list values, each "
+    "container optionally put through 1-5 C10 operations before the copy, copy "
     "kind in {copy(), copy.copy, deepcopy, pickle0..5}, side mutated, path of the "
     "mutated container, mutation history of C10 operations). Non-trivial = the "
     "container has a duplicate key or a nested container and >= 1 mutation "
@@ -42,6 +43,14 @@ DEEP = set(KINDS[2:])
 def build(spec):
     cls = c10.classes()[spec["c"]]
     m = cls([(k, build_value(v)) for k, v in spec["items"]])
+    # a history of C10 operations before the copy is taken: the container is then in
+    # whatever internal state inserts, deletions, pops ... leave behind, not in the
+    # state the constructor produces
+    for op in spec.get("pre") or []:
+        try:
+            c10.apply_real(m, tuple(c10._norm(op)), cls)
+        except Exception:
+            pass
     if spec.get("attr"):
         # an extra instance attribute, as every module from pvl.loads() has (.errors)
         m.errors = [3]
@@ -216,17 +225,22 @@ def spec_strategy():
     clsname = st.sampled_from(["OrderedMultiDict", "PVLModule", "PVLGroup",
                                "PVLObject"])
 
+    pre = st.one_of(st.just([]), st.lists(c10.op_strategy(), min_size=1, max_size=5).map(
+        lambda l: [list(o) for o in l]))
+
     def container(children):
         return st.builds(
-            lambda c, items, attr: {"c": c, "items": items, "attr": attr},
-            clsname, st.lists(st.tuples(key, children), max_size=5), st.booleans())
+            lambda c, items, attr, pre: {"c": c, "items": items, "attr": attr,
+                                         "pre": pre},
+            clsname, st.lists(st.tuples(key, children), max_size=5), st.booleans(), pre)
 
     leaf = st.one_of(scalar, lst)
     value = st.recursive(leaf, lambda ch: st.one_of(leaf, container(ch)),
                          max_leaves=12)
-    return st.builds(lambda c, items, attr: {"c": c, "items": items, "attr": attr},
+    return st.builds(lambda c, items, attr, pre: {"c": c, "items": items, "attr": attr,
+                                                 "pre": pre},
                      clsname, st.lists(st.tuples(key, value), max_size=7),
-                     st.booleans())
+                     st.booleans(), pre)
 
 
 @st.composite
